@@ -122,10 +122,8 @@ class TensorBoardFileTraceExporter(JsonFileTraceExporter):
     def _parse_events_by_id(self) -> None:
         # for trace events and get rank cnt
         events_by_id = self._parse_by_rank_id('pid', self.traceview.trace_events)
-        if len(events_by_id) > 1:
-            self.rank_cnt = len(events_by_id) - 1  # Remove key=-1 which is for CollBandwidth
-        else:
-            self.rank_cnt = len(events_by_id)  # Single AIU case
+        # key=-1 (CollBandwidth) is not a rank and is only present if such counters exist
+        self.rank_cnt = len([rank_id for rank_id in events_by_id if rank_id >= 0])
         self._update_traceview_value_by_rank("trace_events", self.rank_cnt, events_by_id)
 
         # for display_time_unit
